@@ -55,9 +55,15 @@ pub fn violation_for(judge: &dyn Judge, m: &Module, cfg: Option<&CfgLite>, class
     if let Some(c) = cfg {
         js.push_str(&serde_json::to_string(c).unwrap());
     }
+    // a class ending in '!' names a finding by its site alone (one defect reached by many
+    // programs): the key does not include the witness
+    let key = match class.strip_suffix('!') {
+        Some(site) => site.to_string(),
+        None => format!("{class}:{:016x}", fnv(&js)),
+    };
     Violation::new(
         judge.property(),
-        format!("{class}:{:016x}", fnv(&js)),
+        key,
         format!("{what} || minimal program: {}", shrink::render(m)),
         json!({"module": m, "cfg": cfg, "origin": origin}),
     )
